@@ -506,7 +506,7 @@ theorem rep_addShape (a : AbstractModel) (m m' : MDL) (lod shape smi part : Nat)
       (0 + psum subLen (allMeshes a) (psum meshCountOf a.lods lod + part)).toUInt16 from
       (congrArg Mesh.submeshIndex hrowS :), Nat.zero_add, hsbase]
     exact toUInt16_toNat _ (by omega)
-  have hlcE : m.fileHeader.lodCount = a.lodCount := (congrArg FileHeader.lodCount hrep.fh :)
+  have hlcE : lod < m.lods.length := hrep.lod_lt hl hlc
   obtain ⟨lrow, hlrow, hsr⟩ := rep_lod_row hrep hl
   have hmle := meshBase_le a lod l hl
   have e1 : lodAt m.modelData.lods lod = lrow := by simp [lodAt, hlrow]
@@ -519,7 +519,7 @@ theorem rep_addShape (a : AbstractModel) (m m' : MDL) (lod shape smi part : Nat)
   have hma : meshAt m.modelData.meshes (psum meshCountOf a.lods lod + part) = row := by
     simp [meshAt, hrow0]
   have hstart : row.startIndex = (meshStart l part).toUInt32 := by
-    have h1 := hst lod (by rw [hlcE]; exact hlc) part (by rw [e1, e3]; exact hpart)
+    have h1 := hst lod hlcE part (by rw [e1, e3]; exact hpart)
     rw [e1, e2, hma] at h1
     obtain ⟨s, rest, hs1, hs2⟩ := hsub
     have hget := submeshes_getElem? a lod l hl part mesh hmesh 0 (by rw [hs1]; simp)
@@ -702,7 +702,7 @@ theorem rep_step2 (a a' : AbstractModel) (m m' : MDL) (e : AEdit) (ce : Edit)
 /-- histories -/
 theorem rep_history2 : ∀ (es : List AEdit) (a a' : AbstractModel) (m m' : MDL) (ces : List Edit),
     Small a → Rep a m → StartsFromSubmesh m →
-    RangesDisjoint m.modelData.lods m.fileHeader.lodCount.toNat →
+    RangesDisjoint m.modelData.lods m.lods.length →
     editsOk2 a es = true → applyEdits a es = some a' → cedits a es = some ces →
     ces.foldlM Mdl.applyEdit m = .ok m' → Rep a' m' ∧ Small a' := by
   intro es
@@ -735,9 +735,9 @@ theorem rep_history2 : ∀ (es : List AEdit) (a a' : AbstractModel) (m m' : MDL)
           have ha' : applyEdits a1 rest = some a' := by
             simpa [applyEdits, List.foldlM_cons, h1] using ha
           obtain ⟨hrep1, hs1⟩ := rep_step2 a a1 m m1 e c hs hrep hst hok.1 h1 h2 hm1
-          obtain ⟨m0, hu, hl0, hf0, _⟩ := applyEdit_update hm1
-          have hst1 : StartsFromSubmesh m1 := updateHeaders_starts hu (by rw [hl0, hf0]; exact hrd)
-          have hrd1 : RangesDisjoint m1.modelData.lods m1.fileHeader.lodCount.toNat :=
+          obtain ⟨m0, hu, hl0, _, hp0⟩ := applyEdit_update hm1
+          have hst1 : StartsFromSubmesh m1 := updateHeaders_starts hu (by rw [hl0, hp0]; exact hrd)
+          have hrd1 : RangesDisjoint m1.modelData.lods m1.lods.length :=
             (applyEdit_core hm1).2.rangesDisjoint hrd
           exact ih a1 a' m1 m' cs hs1 hrep1 hst1 hrd1 hok.2 ha' h3 hm
 
